@@ -3,7 +3,7 @@ import ast
 import copy
 import z3
 from .values import *  # noqa
-from .expr import zint, ite, zmax, zmin, is_true
+from .expr import zint, ite, zmax, zmin, is_true, is_false
 
 
 class _Subst(ast.NodeTransformer):
@@ -95,13 +95,14 @@ class SpecMixin:
         saved = {nm: st.vars.get(nm) for nm in names}
         n0 = len(st.pc)
         rng = z3.And(*[z3.And(k >= lo, k < hi) for k in ks])
-        st.pc.append(rng)
+        st.guards.append(rng)
         for nm, k in zip(names, ks):
             st.vars[nm] = (Sc("int", k), True)
         try:
             body = truth(self.eval(lam.body, st))
         finally:
-            extra = st.pc[n0 + 1:]
+            st.guards.pop()
+            extra = st.pc[n0:]
             del st.pc[n0:]
             for nm in names:
                 if saved[nm] is None:
@@ -109,8 +110,8 @@ class SpecMixin:
                 else:
                     st.vars[nm] = saved[nm]
         # facts generated while evaluating the body (elementwise definitions ...) stay valid globally
-        for e in extra:
-            st.pc.append(z3.ForAll(ks, z3.Implies(rng, e)))
+        for e in extra:  # each already has the form guards -> fact, with the range among the guards
+            st.pc.append(z3.ForAll(ks, e))
         if is_forall:
             return Sc("bool", z3.ForAll(ks, z3.Implies(rng, body)))
         return Sc("bool", z3.Exists(ks, z3.And(rng, body)))
@@ -126,11 +127,13 @@ class SpecMixin:
 
     def spec_implies(self, node, st):
         a = truth(self.eval(node.args[0], st))
-        st.pc.append(a)
+        if is_false(a):
+            return Sc("bool", z3.BoolVal(True))
+        st.guards.append(a)
         try:
             b = truth(self.eval(node.args[1], st))
         finally:
-            st.pc.pop()
+            st.guards.pop()
         return Sc("bool", z3.Implies(a, b))
 
     def spec_iff(self, node, st):
@@ -152,6 +155,7 @@ class SpecMixin:
             raise VCError("old() outside a postcondition")
         tmp = st.old.fork()
         tmp.pc = st.pc  # share: facts derived while evaluating are kept
+        tmp.guards = st.guards
         tmp.ghost = st.ghost
         v = self.eval(node.args[0], tmp)
         return self.freeze_old(v, tmp, st)
@@ -220,6 +224,7 @@ class SpecMixin:
         now = self.eval(node.args[0], st)
         tmp = st.old.fork()
         tmp.pc = st.pc
+        tmp.guards = st.guards
         then = self.eval(node.args[0], tmp)
         if not (isinstance(now, Ref) and isinstance(then, Ref)):
             raise VCError("unchanged() of non-object")
